@@ -18,7 +18,7 @@ RULE = sqlmon.RULE_HISTORIES + ' Hostile client only: late / never / out-of-orde
 ASSUMPTIONS = sqlmon.COMMON_ASSUMPTIONS
 SHARDS = {'quick': 4, 'thorough': 16}
 TIMEOUT = {'quick': 900, 'thorough': 3600}
-FLOORS = {'uncommitted_job_states_checked': 3000, 'parent_completions_with_uncommitted_children': 5, 'never_committed_updates_with_jobs': 20}
+FLOORS = {'scripted_scheduling_passes_over_an_open_update_with_its_own_group': 40, 'uncommitted_job_states_checked': 3000, 'parent_completions_with_uncommitted_children': 5, 'never_committed_updates_with_jobs': 20}
 
 MECH = {
     'job_complete': 'parent-completion-updates-uncommitted-child',
@@ -55,15 +55,27 @@ class Uncommitted(Monitor):
             if opname == 'job_complete' or (opname in MECH and MECH[opname].startswith('parent')):
                 # a completion readied / decremented a child that lives in an uncommitted update
                 ctx.count('parent_completions_with_uncommitted_children')
-            mech = MECH.get(opname, f'other-{opname}')
+            mech = MECH.get(opname)
+            if mech is None:
+                # the operation under way is not one that touches jobs: fire-and-forget work of an earlier operation (the canceller
+                # and the scheduler hand their per-job calls to a worker pool) committed late.  Attribute by the committing statement.
+                sql = getattr(self.r, 'committing_statement', '')
+                if 'mark_job_complete' in sql:
+                    mech = 'canceller-completes-uncommitted-job' if ('state' in cause and j is not None and j['state'] == 'Cancelled') else 'parent-completion-updates-uncommitted-child'
+                elif any(x in sql for x in ('schedule_job', 'mark_job_started', 'mark_job_creating')):
+                    mech = 'scheduler-runs-uncommitted-job'
+                else:
+                    mech = f'other-{opname}'
+                ctx.count('taints_attributed_by_committing_statement')
             if j is not None and opname in ('job_complete', 'unschedule', 'deactivate_instance') and (j['attempt_id'] is not None or 'state' in cause and j['state'] in ('Running', 'Creating')):
                 mech = 'scheduler-runs-uncommitted-job'
             if mech == 'scheduler-runs-uncommitted-job' and j is not None and j['job_group_id'] != 0:
                 grp = v.groups.get((k[0], j['job_group_id']))
                 gupd = v.updates.get((k[0], grp['update_id'])) if grp else None
-                if grp is not None and not (gupd and gupd['committed']):
-                    # the recorded finding is about Ready jobs placed in groups that are already running; a group created by an open
-                    # update is not visited by the unchanged scheduler (it is 'complete' until the commit)
+                if grp is not None and not (gupd and gupd['committed']) and grp['state'] != 'running':
+                    # the recorded finding is about Ready jobs placed in groups that are running; a group created by an open update is
+                    # 'complete' until a commit makes it running (its own, or that of a LATER update which put jobs into it - a hostile
+                    # client can commit out of order), and the unchanged scheduler does not visit groups that are not running
                     mech = 'scheduler-runs-job-in-group-of-uncommitted-update'
             self.r.violation(f'uncommitted-job-changed/{mech}', f'job {k} of an uncommitted update changed ({cause}) during {opname}', {'job': list(k), 'cause': cause, 'op': opname})
         has_uncommitted_jobs = {}
@@ -90,7 +102,77 @@ class Uncommitted(Monitor):
                 self.r.ctx.count('never_committed_updates_with_jobs')
 
 
+async def scripted(runner, w, fz, rng):
+    """directed prefix: update 1 (left OPEN) brings its own job group with a Ready job in it (and, half the time, another job in the
+    root group - the recorded finding); update 2 = one job in the root group, committed first, so that the batch and its root group
+    are running; a worker with free cores is up and scheduling passes (pool, or job-private creation + scheduling) run."""
+    from batch.front_end.validate import validate_and_clean_jobs, validate_job_groups
+    from vf.world.world import userdata
+
+    ctx = runner.ctx
+    user = 'alice'
+    ud = userdata(user)
+    fe = w.fe
+    jp = rng.random() < 0.3
+    res = {'machine_type': 'n1-standard-1', 'preemptible': True, 'storage': '1Gi'} if jp else {'cpu': '1', 'memory': 'standard', 'storage': '1Gi'}
+
+    def spec(i, **kw):
+        d = {'job_id': i, 'process': {'type': 'docker', 'command': ['true'], 'image': 'u'}, 'resources': dict(res)}
+        d.update(kw)
+        return d
+    both = rng.random() < 0.5
+    bid = await fe._create_batch({'billing_project': 'bp-a', 'token': 'c41s', 'n_jobs': 2 if both else 1, 'n_job_groups': 1}, ud, w.db)
+    fz.batches[bid] = {'user': user, 'token': 'c41s', 'groups': {0, 1}, 'cancelled': set(), 'deleted': False}
+    # update 1 stays OPEN: its own job group 1 with a job in it (jobs of a first update are Ready as soon as they are inserted)
+    u1, _, _ = await fe._create_batch_update(bid, 'c41s', 2 if both else 1, 1, user, w.db)
+    gs = [{'job_group_id': 1, 'absolute_parent_id': 0}]
+    validate_job_groups(gs)
+    await fe._create_job_groups(w.db, bid, u1, user, gs)
+    js = [spec(1, in_update_job_group_id=1)] + ([spec(2)] if both else [])
+    validate_and_clean_jobs(js)
+    await fe._create_jobs(ud, js, bid, u1, w.fe_app)
+    # update 2 (one job in the root group) is committed first: the batch and its root group are running
+    u2, _, sj2 = await fe._create_batch_update(bid, 'c41s-2', 1, 0, user, w.db)
+    js = [spec(1)]
+    validate_and_clean_jobs(js)
+    await fe._create_jobs(ud, js, bid, u2, w.fe_app)
+    await fe._commit_update(w.fe_app, bid, u2, user, w.db)
+    saved = {k: fz.cfg[k] for k in ('worker_reject_p', 'fault_schedule_db_p')}
+    fz.cfg.update({k: 0 for k in saved})
+    fz.fail_next_schedule_db = False
+    fz.current = 'schedule_loop'
+    if jp:
+        fz.current = 'jpim_create'
+        await w.jpim.create_instances_loop_body()
+        await fz._drain()
+        for i in sorted(w.jpim.name_instance.values(), key=lambda i: i.name):
+            w.instances.setdefault(i.name, i)
+            if i.state == 'pending':
+                await i.activate('10.9.0.%d' % (1 + len(w.instances)), w.now_ms())
+        fz.current = 'jpim_schedule'
+        await w.jpim.schedule_jobs_loop_body()
+    else:
+        await w.create_instance('standard', cores=16)
+        await w.pools['standard'].scheduler.schedule_loop_body()
+    await fz._drain()
+    fz.cfg.update(saved)
+    fz.sync_attempts_from_db()
+    ctx.count('scripted_scheduling_passes_over_an_open_update_with_its_own_group')
+    from vf.world.oracles import View
+    j = View(w.engine).jobs.get((bid, 1))
+    ctx.seen('scripted_state_of_the_job_in_the_open_updates_group', ('job-private:' if jp else 'pool:') + (j['state'] if j else 'missing'))
+
+
 def run(ctx):
+    from vf.world.patterns import Patterns
+    from vf.world.run import HistoryRunner
+
+    p = Patterns()
+    r = HistoryRunner(ctx, [p, Uncommitted(p)], cfg={'weights': dict(sqlmon.WEIGHTS_RUN), 'discipline': False}, n_ops=ctx.pick(10, 20), setup=scripted)
+    for i, rng in ctx.cases(ctx.pick(24, 120), 'scripted'):
+        res = r.run_case(i, rng)
+        ops = res.get('ops', [])
+        ctx.case(sample={'scripted-prefix+ops': ops[:30]}, key=('scripted', i, tuple(ops)), nontrivial=True)
     sqlmon.standard_run(ctx, lambda p: [Uncommitted(p)],
                         cfg={'discipline': False, 'parent_p': 0.7, 'max_updates': 4,
                              'weights': {'commit': 3, 'create_update': 5, 'submit_job_bunch': 12, 'job_complete': 16, 'cancel_batch': 0.7, 'cancel_job_group': 1.5}})
